@@ -119,9 +119,13 @@ def runtime_leafs():
     def calloc(interp, args, node):
         interp.event('calloc', tuple(_h(a) for a in args), node)
         return unk('calloc-result')
+    def malloc(interp, args, node):
+        # not zero-initialised: a separate event, so that rules about zero-filled storage can tell the two apart
+        interp.event('malloc', tuple(_h(a) for a in args), node)
+        return unk('calloc-result')
     L['realloc'] = realloc
     L['calloc'] = calloc
-    L['malloc'] = calloc
+    L['malloc'] = malloc
     return L
 
 
